@@ -7,6 +7,8 @@ import (
 	"github.com/cocosip/go-dicom-codecs/jpeg/lossless"
 	"github.com/cocosip/go-dicom-codecs/jpeg/lossless14sv1"
 
+	dcodec "github.com/cocosip/go-dicom/pkg/imaging/codec"
+
 	"verif/internal/gen"
 	"verif/internal/mon"
 )
@@ -19,7 +21,8 @@ func init() { register(c02{}) }
 
 func (c02) ID() string { return "C02" }
 func (c02) Rule() string {
-	return "library encoder -> library decoder, byte and geometry equality. cases: (enum) complete enumeration of all images of a small geometry at P=2/3 for each selector 0..7 and SV1 (batched, distinct by construction); " +
+	return "(codec) 2..4 frames in one Encode call of the registered .57 (predictor 1..7 as parameter) / .70 codecs, every decoded frame equal to its source. " +
+		"library encoder -> library decoder, byte and geometry equality. cases: (enum) complete enumeration of all images of a small geometry at P=2/3 for each selector 0..7 and SV1 (batched, distinct by construction); " +
 		"(pairs) all (a,b) two-sample images horizontally and vertically: every difference value through the category/magnitude coder; (cell) P in 2..16 x components {1,3} x selector x content classes x boundary sizes; (long) 65535x1, 1x65535. " +
 		"non-trivial: the encoder accepted the image and the decoder output was compared; distinct = distinct descriptor"
 }
@@ -160,6 +163,17 @@ func (c02) Build(tier string, seed uint64) []any {
 			cs = append(cs, &imgCase{Gen: "area", W: g[0], H: g[1], C: gen.Pick(r, 1, 3), P: gen.Pick(r, 8, 12, 16), Sel: sel, Class: gen.Pick(r, "noise", "smooth", "runs"), CSeed: r.U64()})
 		}
 	}
+	// (codec) 2..4 frames in one Encode call of the registered .57 (predictor as parameter) and .70
+	// codecs: image-specific Huffman tables and predictor state must not carry over between frames
+	nCodec := 60
+	if tier == "thorough" {
+		nCodec = 900
+	}
+	for k := 0; k < nCodec; k++ {
+		r := gen.Sub(seed, "C02", "codec", k)
+		cs = append(cs, &imgCase{Gen: "codec", W: 2 + r.Intn(60), H: 2 + r.Intn(40), C: gen.Pick(r, 1, 1, 3), P: gen.Pick(r, 8, 12, 16, 16, 2+r.Intn(15)), Sel: r.Intn(9),
+			Class: gen.Pick(r, "noise", "smooth", "altext", "bands", "lowent", "twolevel", "runs", "fibcat"), Aux: 2 + r.Intn(3), CSeed: r.U64()})
+	}
 	return cs
 }
 
@@ -224,11 +238,59 @@ func (c02) Exec(d any) mon.Result {
 		res.Sub = max + 1
 		return res
 	}
+	if c.Gen == "codec" {
+		r := c02Codec(c)
+		r.Cells = res.Cells
+		return r
+	}
 	s := c.samples()
 	cl, msg, n := c02RT(c.Sel, s, c.W, c.H, c.C, c.P)
 	res.AddFeat("stream_bytes", int64(n))
 	if cl != "" {
 		res.V, res.Class, res.Msg = mon.Violated, cl, msg
+	}
+	return res
+}
+
+// c02Codec judges a multi-frame round trip through the registered .57 / .70 codec.
+func c02Codec(c *imgCase) mon.Result {
+	res := mon.Hold()
+	ba := 8
+	if c.P > 8 {
+		ba = 16
+	}
+	ts := ".57"
+	if c.Sel == 8 {
+		ts = ".70"
+	}
+	cd := Codec(ts)
+	info := FrameInfo(c.W, c.H, ba, c.P, c.C, 0, 0)
+	var frames [][]byte
+	classes := []string{c.Class, "noise", "const", "altext"}
+	for f := 0; f < c.Aux; f++ {
+		frames = append(frames, gen.Pack(gen.Content(gen.New(gen.Mix(c.CSeed, uint64(f))), classes[f%len(classes)], c.W, c.H, c.C, c.P, 0), c.P))
+	}
+	var p dcodec.Parameters
+	if ts == ".57" && c.Sel >= 1 {
+		p = cd.GetDefaultParameters()
+		p.SetParameter("predictor", c.Sel)
+	}
+	enc := NewPD(info)
+	if err := cd.Encode(NewPD(info, frames...), enc, p); err != nil {
+		return mon.Violation("encode-error", err.Error())
+	}
+	dec := NewPD(info)
+	if err := cd.Decode(NewPD(info, enc.Frames...), dec, nil); err != nil {
+		return mon.Violation("decode-error", err.Error())
+	}
+	if len(enc.Frames) != len(frames) || len(dec.Frames) != len(frames) {
+		return mon.Violation("frame-count", fmt.Sprintf("%d encoded / %d decoded frames for %d inputs", len(enc.Frames), len(dec.Frames), len(frames)))
+	}
+	for f := range frames {
+		if i := firstDiff(dec.Frames[f], frames[f]); i >= 0 {
+			return mon.Violation("pixel-mismatch", fmt.Sprintf("frame %d of %d (codec-level %s call) differs from its source at byte %d (len %d vs %d)", f, len(frames), ts, i, len(dec.Frames[f]), len(frames[f])))
+		}
+		res.AddFeat("codec_frames", 1)
 	}
 	return res
 }
